@@ -166,6 +166,10 @@ func (p *parser) parseBinaryExpr(left Node) Node {
 	if expType == EMPTY_ARRAY && binaryExp.Op == OP_PLUS {
 		binaryExp.T = binaryExp.Right.Type() // array concatenation e.g. [] + [1 2]
 	}
+	if rt := binaryExp.Right.Type(); binaryExp.Op == OP_PLUS && binaryExp.T != nil && rt != nil && binaryExp.T.Name == ARRAY && binaryExp.T.Equals(rt) {
+		// e.g. [[1]] + [nums]: keep the Fixed flags of both operands at every level, as combineTypes does
+		binaryExp.T = mergeFixed(binaryExp.T, rt)
+	}
 	if binaryExp.T != nil && binaryExp.T.Name == ARRAY && binaryExp.Right.Type() != nil && binaryExp.Right.Type().Fixed {
 		// e.g. [1] + nums: the result cannot be coerced any more than nums can
 		binaryExp.T = fixedType(binaryExp.T)
